@@ -151,10 +151,8 @@ def check_test_case(tc: Any, allowed: frozenset[str]) -> tuple[list[tuple[str, s
     elif len(body) != len(stmts):
         return [("statement-count-mismatch", f"{len(stmts)} statements render as {len(body)} top-level nodes\n{code[:600]}")], facts
     bound_so_far: set[str] = set()
-    all_names: set[str] = set()
     for idx, (node, stmt) in enumerate(zip(body, stmts)):
         needed, bound = stmt_facts(node)
-        all_names |= needed | bound
         missing = sorted(n for n in needed if n not in bound_so_far and n not in allowed)
         if missing:
             kind = "test-variable" if all(m.startswith("var_") for m in missing) else "other-name"
@@ -178,19 +176,15 @@ def check_test_case(tc: Any, allowed: frozenset[str]) -> tuple[list[tuple[str, s
     for stmt in stmts:
         if stmt.bound_variable is not None and stmt.bound_type is not None:
             expected.setdefault(stmt.bound_type, []).append(stmt.bound_variable)
-    real = {k: list(v) for k, v in tc._type_registry.items() if v}  # noqa: SLF001
-    if real != expected:
-        diff = [f"{getattr(k, '__name__', k)}: registry {real.get(k)} statements {expected.get(k)}"
-                for k in list(dict.fromkeys([*expected, *real])) if real.get(k) != expected.get(k)]
+    # the public view (variables_of_type) for every type the statements or the registry know about
+    keys = list(dict.fromkeys([*expected, *getattr(tc, "_type_registry", {})]))
+    diff = [f"{getattr(k, '__name__', k)}: registry {tc.variables_of_type(k)} statements {expected.get(k, [])}"
+            for k in keys if tc.variables_of_type(k) != expected.get(k, [])]
+    if diff:
         fails.append(("registry-differs-from-statements", "; ".join(diff)[:800]))
-    else:
-        for k, names in expected.items():
-            if tc.variables_of_type(k) != names:
-                fails.append(("variables_of_type-differs", f"{k}: {tc.variables_of_type(k)} != {names}"))
-                break
     fresh = tc.clone().next_var_name()
-    if fresh in all_names or fresh in bound_so_far:
-        fails.append(("next-var-name-in-use", f"next_var_name() of a clone = {fresh!r} which occurs in\n{code[:900]}"))
+    if fresh in bound_so_far:
+        fails.append(("next-var-name-in-use", f"next_var_name() of a clone = {fresh!r} which is bound in\n{code[:900]}"))
     return fails, facts
 
 
@@ -327,7 +321,13 @@ def _child(case: dict[str, Any], module_dir: str, module_name: str) -> dict[str,
                 elif name == "execute":
                     if not tc.size():  # the executor's time budget is per statement: an empty test "times out" at once
                         continue
-                    result = s.executor.execute(tc)
+                    try:
+                        result = s.executor.execute(tc)
+                    except Exception as exc:  # noqa: BLE001
+                        if not has_pynguin_frame(exc):
+                            raise
+                        labels.append("class:executor-raised")  # the executor is not a variation operator (C30-C32)
+                        continue
                     if result.timeout:
                         stats["timeouts"] += 1
                     chrom.set_last_execution_result(result)
